@@ -143,6 +143,7 @@ def gen_conn():
     e_trynext = _one_expect(tree, 'tryNextSaslMechanism')
     e_auth = _one_expect(tree, 'doAuthenticate')
     e_ls = _one_expect(tree, 'doCapLs')
+    e_903 = _one_expect(tree, 'do903')
     # --- constants
     req = _set_literal(find_assign(tree, 'REQUEST_CAPABILITIES', 'Irc'), 'REQUEST_CAPABILITIES')
     setters = _set_literal(find_assign(tree, '_nickSetters', 'Irc'), '_nickSetters')
@@ -187,7 +188,8 @@ def gen_conn():
     body += '/-- IrcStateFsm.on_sasl_auth_finished -/\ndef onSaslAuthFinished : List (Fsm × Fsm) := %s\n' % llist('(.%s, .%s)' % p for p in sasl_fin)
     body += '/-- expect_state lists of Irc.capUpkeep / tryNextSaslMechanism / doAuthenticate / doCapLs -/\n'
     body += 'def expectCapUpkeep : List Fsm := %s\ndef expectTryNextSasl : List Fsm := %s\n' % (_fsm(e_upkeep), _fsm(e_trynext))
-    body += 'def expectDoAuthenticate : List Fsm := %s\ndef expectDoCapLs : List Fsm := %s\n\n' % (_fsm(e_auth), _fsm(e_ls))
+    body += 'def expectDoAuthenticate : List Fsm := %s\ndef expectDoCapLs : List Fsm := %s\n' % (_fsm(e_auth), _fsm(e_ls))
+    body += '/-- expect_state list of Irc.do903 -/\ndef expectDo903 : List Fsm := %s\n\n' % _fsm(e_903)
     body += '/-- Irc.REQUEST_CAPABILITIES as written in the source (sorted) -/\ndef requestCapabilities : List Py.Str :=\n  %s\n' % llist(lstr(x) for x in req)
     body += '/-- Irc._nickSetters (sorted) -/\ndef nickSetters : List Py.Str :=\n  %s\n' % llist(lstr(x) for x in setters)
     body += 'def maxLineSize : Nat := %d\ndef authenticateChunkSize : Nat := %d\n' % (maxline, chunk)
